@@ -154,6 +154,35 @@ pub open spec fn temp_name() -> Seq<u8> {
     seq![0x2eu8, 0x6b, 0x69, 0x73, 0x6d, 0x65, 0x74, 0x5f, 0x74, 0x65, 0x6d, 0x70]
 }
 
+/// A prefix of `dir/name` is a prefix of `dir`, or is `dir/name` itself.
+pub proof fn lemma_prefix_of_child(d: PathV, dir: PathV, name: Seq<u8>)
+    requires
+        d.is_prefix_of(child(dir, name)),
+    ensures
+        d.is_prefix_of(dir) || d == child(dir, name),
+{
+    let c = child(dir, name);
+    if d.len() == c.len() {
+        assert(d =~= c);
+    } else {
+        assert(d.len() <= dir.len());
+        assert(d =~= dir.subrange(0, d.len() as int)) by {
+            assert forall|i: int| 0 <= i < d.len() implies d[i] == dir[i] by {
+                assert(d[i] == c.subrange(0, d.len() as int)[i]);
+            }
+        }
+    }
+}
+
+pub proof fn lemma_path_split_w(p: PathV)
+    requires
+        p.len() > 0,
+    ensures
+        p == child(parent(p), base_name(p)),
+{
+    assert(p =~= p.drop_last().push(p.last()));
+}
+
 pub proof fn lemma_atime_only_trans(a: World, b: World, c: World)
     requires
         b.atime_only(a),
@@ -256,6 +285,7 @@ impl World {
         &&& forall|p: PathV| #[trigger] self.files.contains_key(p) ==> !self.dirs.contains(p)
         &&& forall|p: PathV| #[trigger] self.dirs.contains(p) ==> !self.in_cache_namespace(p)   // no directory is named like a key
         &&& forall|d: PathV| #[trigger] self.cache_dirs.contains(d) && d.len() > 0 ==> base_name(d) != temp_name()   // a `.kismet_temp` is never itself a cache directory
+        &&& forall|c: PathV, q: PathV| #[trigger] self.cache_dirs.contains(c) && #[trigger] q.is_prefix_of(c) ==> !self.in_cache_namespace(q)   // cache directories do not nest inside one another's key namespace
         &&& forall|i: InodeId| #[trigger] self.inodes.contains_key(i) ==> self.inodes[i].mtime <= trunc(self.now, self.gran)
         &&& forall|i: InodeId| #[trigger] self.inodes.contains_key(i) ==> self.inodes[i].mtime == trunc(self.inodes[i].mtime, self.gran)
     }
